@@ -6,6 +6,7 @@
 \*   {"e":"err","v":V}       the consumer called Err() and got error class V
 \*   {"e":"slowq","total":T,"n":k,"v":V,"panic":P}   a real backend with T matching records and a consumer that
 \*        started late: it received k records before the stream ended and Err() then gave class V
+\*   {"e":"bulk","total":T,"purged":P,"left":L,"controls":C,"v":V,"panic":X}   a purge of T records below one prefix
 \* Rules: once the consumer has seen the end of the stream, Err() is the producer's error; a stream that ends
 \* with fewer records than the query selects ends with an error, a complete one without.
 EXTENDS Integers, Sequences, TLC, Json
@@ -25,6 +26,13 @@ Step == /\ l <= Len(Trace)
              [] ev.e = "slowq" -> /\ ev.panic = ""
                                   /\ \/ ev.n = ev.total /\ ev.v = "nil"
                                      \/ ev.n < ev.total /\ ev.v # "nil"
+                                  /\ UNCHANGED <<want, ended, items>>
+             \* kind "bulk": total records below one prefix were written, the prefix was purged: a backend that implements
+             \* Purge reports exactly that many, nothing is left below the prefix, the three records next to it are
+             \* still there (large purges are done in several storage batches)
+             [] ev.e = "bulk"  -> /\ ev.panic = ""
+                                  /\ \/ ev.v = "notimpl"
+                                     \/ ev.v = "nil" /\ ev.purged = ev.total /\ ev.left = 0 /\ ev.controls = 3
                                   /\ UNCHANGED <<want, ended, items>>
              [] OTHER          -> UNCHANGED <<want, ended, items>>
         /\ l' = l + 1
